@@ -71,6 +71,8 @@ type c09case struct {
 	cutAt       int  // >0: exactly two reads, cut after this many bytes
 	delayUs     int  // channel read delay
 	pauseUs     int  // transport: pause before every read returns (slow link)
+	rpcEcho     int  // echo of the post-Open requests: sim.C08EchoOff / Sep / Merged / Coalesced
+	echoCorpus  bool // corpus case: plain hello, whole reads, echoing transport in the given mode
 }
 
 const c09password = "s3cret"
@@ -208,6 +210,11 @@ func genC09(seed uint64, cell int, thorough bool) c09case {
 			cs.loginBanner = x.Pick([]string{"Ubuntu 22.04 LTS\n", "\nACME SSH gateway\nuser@10.0.0.1's ", ""})
 		}
 	}
+	// a transport echoes or it does not: the hello is echoed iff the requests are (a quarter of the
+	// echoing cases start echoing only after Open, e.g. a tty whose mode was changed late)
+	er := vlib.NewRng(seed ^ 0xec40)
+	cs.rpcEcho = er.Intn(4)
+	cs.echo = cs.rpcEcho != sim.C08EchoOff && !er.Chance(1, 4)
 	cs.delayUs = []int{20, 40, 40, 250}[x.Intn(4)]
 	if x.Chance(1, 6) {
 		cs.pauseUs = x.Range(30, 300)
@@ -362,12 +369,27 @@ func genC09late(seed uint64, cell int) c09case {
 	return cs
 }
 
+// genC09echo: corpus for the echo dimension of the post-Open requests: a plain hello delivered whole, an
+// echoing transport (client hello echoed too) in the given mode, two requests.
+func genC09echo(mode, cell int) c09case {
+	cs := genC09witness(cell)
+	cs.echoCorpus = true
+	cs.rpcEcho = mode
+	cs.echo = true
+	cs.secondRPC = true
+	cs.readSize = 65535
+	return cs
+}
+
 // genC09cut: one fixed prefixed hello (banner, declaration, three capabilities, session-id) delivered
 // in exactly two reads, cut after k bytes: enumerated over EVERY k.
 func genC09cut(k, cell int) c09case {
 	cs := genC09witness(cell)
 	cs.pre = "Last login: Thu Oct  1 10:11:12 2026\n"
 	cs.cutAt = k
+	cs.rpcEcho = k % 4
+	cs.echo = cs.rpcEcho != 0 && k%8 >= 4
+	cs.secondRPC = k%3 == 0
 	return cs
 }
 
@@ -490,17 +512,25 @@ type c09obs struct {
 
 func runC09case(cs c09case) c09obs {
 	var o c09obs
-	srv := sim.NewNCServer(cs.caps10, cs.caps11)
+	// the server: hello / negotiation by NCServer, the post-Open requests by C08Server (per-request
+	// reply plan and the four echo modes, incl. the pty style "echo + whole reply in one piece")
+	x := sim.NewC08ServerCaps(cs.caps10, cs.caps11)
+	srv := x.NCServer
+	x.IDToken = []byte("@ID@")
+	reply := []byte(`<rpc-reply xmlns="urn:ietf:params:xml:ns:netconf:base:1.0" message-id="@ID@"><data><x>c09</x></data></rpc-reply>`)
+	x.Plans = []sim.C08Plan{{Payload: reply}, {Payload: reply}}
+	if cs.echo {
+		// the transport echoes from the start: the client hello comes back too (in reads of its own,
+		// after the server's hello -- the causal order on a pty whose peer has already spoken)
+		x.EchoMode = sim.C08EchoSep
+		x.StartLog()
+	}
 	hello := cs.render()
 	if hello == nil {
 		hello = []byte{}
 	}
 	srv.Hello = hello
 	srv.HelloSuffix = []byte(cs.suffix)
-	srv.Echo = cs.echo
-	srv.Behave = func(i int, req sim.NCRequest) sim.NCReply {
-		return sim.NCReply{Payload: []byte(fmt.Sprintf(`<rpc-reply xmlns="urn:ietf:params:xml:ns:netconf:base:1.0" message-id="%d"><data><x>c09</x></data></rpc-reply>`, req.MessageID))}
-	}
 	n := len(hello) + len(c09delim) + len(cs.suffix)
 	sr := vlib.NewRng(cs.seed ^ 0x5eed09)
 	switch cs.segClass {
@@ -527,7 +557,7 @@ func runC09case(cs c09case) c09obs {
 	skipWritten := 0
 	switch {
 	case cs.auth > 0:
-		authSrv = sim.NewNCAuth(srv)
+		authSrv = sim.NewNCAuthOver(x)
 		authSrv.Prompt = cs.auth == 1
 		authSrv.LoginBanner = []byte(cs.loginBanner)
 		impl = authSrv
@@ -591,6 +621,12 @@ func runC09case(cs c09case) c09obs {
 	if err == nil {
 		// the adversarial stream's hello text need not match what the simulator speaks: no RPC there
 		if cs.kind == "grammar" {
+			x.Mu.Lock()
+			x.EchoMode = cs.rpcEcho
+			x.Mu.Unlock()
+			if !cs.echo {
+				x.StartLog()
+			}
 			r, rerr := d.GetConfig("running")
 			o.rpcClass = errClass(rerr)
 			if rerr == nil {
@@ -855,6 +891,8 @@ func runC09(c *ctx) {
 				cs = genC09huge(seed, cell)
 			case "cut":
 				cs = genC09cut(int(seed), cell)
+			case "echo":
+				cs = genC09echo(int(seed), cell)
 			case "raw":
 				cs = genC09raw(seed, cell)
 			case "nohello":
@@ -877,6 +915,11 @@ func runC09(c *ctx) {
 	// corpus: the F7 witness first (prefixed session-id), in every successful cell
 	for cell := 0; cell < 12; cell++ {
 		cases = append(cases, genC09witness(cell))
+	}
+	for mode := 1; mode <= 3; mode++ {
+		for cell := 0; cell < 12; cell++ {
+			cases = append(cases, genC09echo(mode, cell))
+		}
 	}
 	n := c.n(60, 2000)
 	for i := 0; i < n; i++ {
@@ -1078,10 +1121,14 @@ func c09check(c *ctx, cases []c09case) {
 			again = append(again, i)
 		}
 	}
-	if len(again) > 0 && len(again) <= 48 {
+	if len(again) > 12 {
+		// many at once is a pattern, not a slow machine: confirm a dozen, bin/check re-runs the rest alone
+		again = again[:12]
+	}
+	if len(again) > 0 {
 		for _, i := range again {
-			cases[i].timeout = 30 * time.Second
-			res.Count(fmt.Sprintf("rerun: kind=%s cell=%d seed=%d open=%s rpc=%s echo=%v seg=%d", cases[i].kind, cases[i].cell, cases[i].seed, obs[i].openClass, obs[i].rpcClass, cases[i].echo, cases[i].segClass))
+			cases[i].timeout = 10 * time.Second
+			res.Count(fmt.Sprintf("rerun: kind=%s open=%s rpc=%s", cases[i].kind, obs[i].openClass, obs[i].rpcClass))
 		}
 		c09runAll(cases, obs, again, 2)
 		var l2 []string
@@ -1094,7 +1141,7 @@ func c09check(c *ctx, cases []c09case) {
 		for k, i := range again {
 			ans[i], wans[i] = a2[2*k], a2[2*k+1]
 		}
-		res.Distribution["rerun-with-30s-deadline-after-timeout"] += len(again)
+		res.Distribution["rerun-alone-with-10s-deadline-after-timeout"] += len(again)
 	}
 	for i, cs := range cases {
 		o := obs[i]
@@ -1117,6 +1164,9 @@ func c09check(c *ctx, cases []c09case) {
 		}
 		if cs.cutAt > 0 {
 			caseLine = fmt.Sprintf("c09case cut %d %d", cs.cutAt, cs.cell)
+		}
+		if cs.echoCorpus {
+			caseLine = fmt.Sprintf("c09case echo %d %d", cs.rpcEcho, cs.cell)
 		}
 		res.Count("kind:" + cs.kind)
 		res.Count(fmt.Sprintf("cell:%d%d/%q", c09b(cs.caps10), c09b(cs.caps11), cs.pref))
@@ -1298,9 +1348,10 @@ func c09check(c *ctx, cases []c09case) {
 			continue
 		}
 		if o.rpcClass != "nil" || o.rpcFailed || !strings.Contains(o.rpcResult, "<x>c09</x>") {
-			res.Fail("oracle", caseLine, fmt.Sprintf("first RPC after Open (version %s, echo %v): error class %s failed=%v result %q", impl.ver, cs.echo, o.rpcClass, o.rpcFailed, o.rpcResult), "first-rpc:"+impl.ver)
+			res.Fail("oracle", caseLine, fmt.Sprintf("first RPC after Open (version %s, hello echoed %v, request echo mode %d [0 off,1 separate reads,2 sharing a read with the reply,3 echo+whole reply in one piece], segmentation class %d, read size %d): error class %s failed=%v result %q", impl.ver, cs.echo, cs.rpcEcho, cs.segClass, cs.readSize, o.rpcClass, o.rpcFailed, o.rpcResult), "first-rpc:"+impl.ver)
 			continue
 		}
+		res.Count(fmt.Sprintf("rpc-echo:%s hello-echoed:%v seg:%d", []string{"off", "separate-reads", "sharing-a-read-with-the-reply", "coalesced-with-the-whole-reply"}[cs.rpcEcho&3], cs.echo, cs.segClass))
 		res.Count(fmt.Sprintf("rpc-options: force-self-closing=%v exclude-header=%v", cs.forceSelf, cs.exclHdr))
 		if o.optForce != cs.forceSelf || o.optExcl != cs.exclHdr {
 			res.Fail("oracle", caseLine, fmt.Sprintf("options did not land: ForceSelfClosingTags=%v (asked %v) ExcludeHeader=%v (asked %v)", o.optForce, cs.forceSelf, o.optExcl, cs.exclHdr), "netconf-option-not-applied")
